@@ -500,7 +500,49 @@ func findNilableFields(p *core.Prog, pkgs ...string) []nilableField {
 										}
 										return false
 									}
-									if escape, _ := (core.PathQuery{Fn: host, From: ci, Avoid: ev, ExitReturnOnly: true}).Exists(); escape {
+									// edges that do not count as leaving the object incomplete: the non-nil edge of a nil test of
+									// the field (`if sp.w == nil { sp.w = New… }`), and the failure edge right after the call when
+									// the helper cannot fail after it has published the object
+									cutH := map[core.Edge]bool{}
+									for _, hb := range host.Blocks {
+										iff := core.IfOf(hb)
+										if iff == nil {
+											continue
+										}
+										if cmp, ok := iff.Cond.(*ssa.BinOp); ok && core.IsNilConst(cmp.Y) {
+											if f2 := core.LoadedField(cmp.X); f2 != nil && core.FieldVar(f2) == fv {
+												if cmp.Op == token.EQL {
+													cutH[core.Edge{From: hb, To: hb.Succs[1]}] = true
+												} else if cmp.Op == token.NEQ {
+													cutH[core.Edge{From: hb, To: hb.Succs[0]}] = true
+												}
+											}
+										}
+										ownErr := false // the tested error is a result of this very call, not of something built from its result
+										if cmp, ok := iff.Cond.(*ssa.BinOp); ok && ci.Value() != nil {
+											for _, side := range []ssa.Value{cmp.X, cmp.Y} {
+												if ex, ok := side.(*ssa.Extract); ok && ex.Tuple == ssa.Value(ci.Value()) {
+													ownErr = true
+												}
+												if side == ssa.Value(ci.Value()) {
+													ownErr = true
+												}
+											}
+										}
+										if fe := failEdge(hb); fe >= 0 && ownErr {
+											failsAfterPublish := false
+											for _, r := range core.Returns(fn) {
+												last := r.Results[len(r.Results)-1]
+												if isErrorType(last.Type()) && !core.IsNilConst(core.ResultValue(r, len(r.Results)-1)) && core.Reachable(fn, publish, r) {
+													failsAfterPublish = true
+												}
+											}
+											if !failsAfterPublish {
+												cutH[core.Edge{From: hb, To: hb.Succs[fe]}] = true
+											}
+										}
+									}
+									if escape, _ := (core.PathQuery{Fn: host, From: ci, Avoid: ev, CutEdges: cutH, ExitReturnOnly: true}).Exists(); escape {
 										completed = false
 									}
 								})
